@@ -20,6 +20,7 @@ import BV.Lemmas.HuffmanEntry
 import BV.Lemmas.HuffmanRead
 import BV.Lemmas.HuffmanStoreRead
 import BV.Lemmas.HuffmanStoreTree
+import BV.Lemmas.HuffmanOptRle
 
 namespace BV.Props.C17
 open BV.Gen BV.Bits BV.Huffman
@@ -586,6 +587,37 @@ example : (6 ≤ [2, 4, 4, 3, 0, 1, 9].length) ∧ (∀ x ∈ [2, 4, 4, 3, 0, 1,
     kraftSum 15 ([2, 4, 4, 3, 0, 1, 9].take 6) = 32768 ∧
     (storeHuffmanTree [2, 4, 4, 3, 0, 1, 9] 6 (List.replicate 37 default) []).bind
       (fun w => .ok (w.length, readPrefixCode 6 w)) = .ok (29, some ([2, 4, 4, 3, 0, 1], [])) := by
+  decide +kernel
+
+
+/-! ## `BrotliOptimizeHuffmanCountsForRle` (applied to the histograms before the codes are built) -/
+
+/-- `optimize_counts_for_rle_safe`.  `BrotliOptimizeHistograms` (metablock.rs) rewrites
+every literal / command / distance histogram in place with
+`BrotliOptimizeHuffmanCountsForRle(length, counts, good_for_rle)` before
+`BuildAndStoreHuffmanTree` sees it.  What is TRUE of that rewrite, for every
+histogram of `u32` counts shorter than `2^31`, whenever the function returns:
+the length is unchanged, every count is still a `u32`, and a NON-ZERO COUNT
+STAYS NON-ZERO — so every symbol that occurs in the data still occurs in the
+histogram the code is built from, and by "support exact" of the builder it gets
+a code word.  (The isolated-zero filling writes 1 over zeros only; a smoothed
+stride is overwritten with `max(1, rounded average)` unless its sum is 0, in
+which case it was all zeros.)
+What is NOT true: zeros do not stay zero (`optimize_counts_fills_zeros`): the
+built code may contain symbols that never occur, which costs code space but
+not correctness. -/
+theorem optimize_counts_for_rle_safe (length : Nat) (counts good r : List Nat)
+    (hb : ∀ x ∈ counts, x < 2 ^ 32) (hl : counts.length < 2 ^ 31)
+    (h : optimizeHuffmanCountsForRle length counts good = .ok r) :
+    r.length = counts.length ∧ (∀ p, counts.getD p 0 ≠ 0 → r.getD p 0 ≠ 0) ∧
+      ∀ x ∈ r, x < 2 ^ 32 := by
+  have := Lemmas.HuffmanOptRle.optimize_keep length counts good r hb hl h
+  exact ⟨this.hlen, this.hnz, this.hu32⟩
+
+/-- non-vacuity, and the negative half: symbol 5 does not occur but gets count 1 -/
+theorem optimize_counts_fills_zeros :
+    optimizeHuffmanCountsForRle 17 [3, 3, 3, 3, 3, 0, 3, 3, 3, 3, 3, 3, 3, 3, 3, 3, 3]
+      (List.replicate 17 0) = .ok [3, 3, 3, 3, 3, 1, 3, 3, 3, 3, 3, 3, 3, 3, 3, 3, 3] := by
   decide +kernel
 
 end BV.Props.C17
